@@ -15,6 +15,7 @@
 package set
 
 import (
+	"encoding/json"
 	"math/rand"
 	"slices"
 	"unsafe"
@@ -44,6 +45,39 @@ func (s *Set) GetMem() int64 {
 
 // compile time interface check
 var _ constants.CompositeType = (*Set)(nil)
+var _ internal.TypedValue = (*Set)(nil)
+
+// ValueTypeName, MarshalJSON and the decoder registered in init give a set a JSON form that restores to a set
+// with the same members (snapshots, AOF preamble).
+func (s *Set) ValueTypeName() string { return "set" }
+
+func (s *Set) MarshalJSON() ([]byte, error) {
+	members := s.GetAll()
+	slices.Sort(members)
+	encoded := make([]string, len(members))
+	for i, m := range members {
+		encoded[i] = internal.EncodeString(m)
+	}
+	return json.Marshal(encoded)
+}
+
+func init() {
+	internal.RegisterValueType("set", func(raw []byte) (interface{}, error) {
+		var encoded []string
+		if err := json.Unmarshal(raw, &encoded); err != nil {
+			return nil, err
+		}
+		members := make([]string, len(encoded))
+		for i, e := range encoded {
+			m, err := internal.DecodeString(e)
+			if err != nil {
+				return nil, err
+			}
+			members[i] = m
+		}
+		return NewSet(members), nil
+	})
+}
 
 func NewSet(elems []string) *Set {
 	set := &Set{
